@@ -68,7 +68,8 @@ func convertReflectValueToType(rv reflect.Value, rt reflect.Type) (reflect.Value
 			return ptrV, nil
 		}
 	}
-	if rv.Type() == interfaceType {
+	if rv.Kind() == reflect.Interface {
+		// an interface{} slot, or a value a Go function returned as an interface type such as error
 		if rv.IsNil() {
 			// return nil of correct type
 			return reflect.Zero(rt), nil
